@@ -103,15 +103,17 @@ theorem sub_into_oneOf {s x x' : Shape} {ws : List Shape} {o' : Bool}
       cases ps
       · simpa [isSubset] using hin
       · have hp' := hp rfl; subst hp'
-        simp only [isSubset, Bool.or_eq_true, Bool.and_eq_true]
-        exact Or.inr ⟨Or.inr (setContains_iff.2 (hnull rfl)), hin⟩
+        simp only [isSubset]
+        obtain ⟨v, hv, hsv⟩ := anySuperset_iff.1 hin
+        exact anyNullOkSuperset_iff.2 ⟨v, hv, by simp [setContains_iff.2 (hnull rfl)], hsv⟩
     · have hin : anySuperset (.tuple es false) ws = true :=
         anySuperset_of_mem hmem (sub_tuple_array hes (by simp))
       cases ps
       · simpa [isSubset] using hin
       · have hp' := hp rfl; subst hp'
-        simp only [isSubset, Bool.or_eq_true, Bool.and_eq_true]
-        exact Or.inr ⟨Or.inr (setContains_iff.2 (hnull rfl)), hin⟩
+        simp only [isSubset]
+        obtain ⟨v, hv, hsv⟩ := anySuperset_iff.1 hin
+        exact anyNullOkSuperset_iff.2 ⟨v, hv, by simp [setContains_iff.2 (hnull rfl)], hsv⟩
     · subst hp; exact null_sub_oneOf (hnull rfl)
   | tuple os p =>
     have hb : ∃ q, x' = .tuple os q := by
@@ -125,8 +127,9 @@ theorem sub_into_oneOf {s x x' : Shape} {ws : List Shape} {o' : Bool}
       cases ps
       · simpa [isSubset] using hin
       · have hp' := hp rfl; subst hp'
-        simp only [isSubset, Bool.or_eq_true, Bool.and_eq_true]
-        exact Or.inr ⟨Or.inr (setContains_iff.2 (hnull rfl)), hin⟩
+        simp only [isSubset]
+        obtain ⟨v, hv, hsv⟩ := anySuperset_iff.1 hin
+        exact anyNullOkSuperset_iff.2 ⟨v, hv, by simp [setContains_iff.2 (hnull rfl)], hsv⟩
     · subst hp; exact null_sub_oneOf (hnull rfl)
   | object oc p =>
     have hb : ∃ q, x' = .object oc q := by
@@ -140,10 +143,9 @@ theorem sub_into_oneOf {s x x' : Shape} {ws : List Shape} {o' : Bool}
           anyObjectSuperset_iff.2 ⟨_, hmem, rfl, sub_object_object hc (by simp)⟩
         simpa [isSubset] using this
       · have hp' := hp rfl; subst hp'
-        have hin : anySuperset (.object c false) ws = true :=
-          anySuperset_of_mem hmem (sub_object_object hc (by simp))
-        simp only [isSubset, Bool.or_eq_true, Bool.and_eq_true]
-        exact Or.inr ⟨Or.inr (setContains_iff.2 (hnull rfl)), hin⟩
+        simp only [isSubset]
+        exact anyNullOkSuperset_iff.2 ⟨_, hmem, by simp [setContains_iff.2 (hnull rfl)],
+          sub_object_object hc (by simp)⟩
     · subst hp; exact null_sub_oneOf (hnull rfl)
 
 end ShapeVerif
@@ -213,27 +215,39 @@ theorem sub_oneOf_mono {s : Shape} {vs ws : List Shape} {o o' : Bool}
   | array t ps =>
     cases ps
     · simp only [isSubset] at h ⊢; exact anySuperset_mono h hsub
-    · simp only [isSubset, Bool.or_eq_true, Bool.and_eq_true] at h ⊢
-      rcases h with h | ⟨h1, h2⟩
-      · exact Or.inl (setContains_mono h hsub)
-      · refine Or.inr ⟨?_, anySuperset_mono h2 hsub⟩
-        have := hnull (by simpa using h1); simpa using this
+    · simp only [isSubset] at h ⊢
+      obtain ⟨v, hv, hn, hsv⟩ := anyNullOkSuperset_iff.1 h
+      refine anyNullOkSuperset_iff.2 ⟨v, hsub v hv, ?_, hsv⟩
+      simp only [Bool.or_eq_true] at hn ⊢
+      rcases hn with hn | hn
+      · have := hnull (by simpa using hn)
+        simp only [Bool.or_eq_true] at this
+        exact Or.inl this
+      · exact Or.inr hn
   | tuple es ps =>
     cases ps
     · simp only [isSubset] at h ⊢; exact anySuperset_mono h hsub
-    · simp only [isSubset, Bool.or_eq_true, Bool.and_eq_true] at h ⊢
-      rcases h with h | ⟨h1, h2⟩
-      · exact Or.inl (setContains_mono h hsub)
-      · refine Or.inr ⟨?_, anySuperset_mono h2 hsub⟩
-        have := hnull (by simpa using h1); simpa using this
+    · simp only [isSubset] at h ⊢
+      obtain ⟨v, hv, hn, hsv⟩ := anyNullOkSuperset_iff.1 h
+      refine anyNullOkSuperset_iff.2 ⟨v, hsub v hv, ?_, hsv⟩
+      simp only [Bool.or_eq_true] at hn ⊢
+      rcases hn with hn | hn
+      · have := hnull (by simpa using hn)
+        simp only [Bool.or_eq_true] at this
+        exact Or.inl this
+      · exact Or.inr hn
   | object c ps =>
     cases ps
     · simp only [isSubset] at h ⊢; exact anyObjectSuperset_mono h hsub
-    · simp only [isSubset, Bool.or_eq_true, Bool.and_eq_true] at h ⊢
-      rcases h with h | ⟨h1, h2⟩
-      · exact Or.inl (anyObjectSuperset_mono h hsub)
-      · refine Or.inr ⟨?_, anySuperset_mono h2 hsub⟩
-        have := hnull (by simpa using h1); simpa using this
+    · simp only [isSubset] at h ⊢
+      obtain ⟨v, hv, hn, hsv⟩ := anyNullOkSuperset_iff.1 h
+      refine anyNullOkSuperset_iff.2 ⟨v, hsub v hv, ?_, hsv⟩
+      simp only [Bool.or_eq_true] at hn ⊢
+      rcases hn with hn | hn
+      · have := hnull (by simpa using hn)
+        simp only [Bool.or_eq_true] at this
+        exact Or.inl this
+      · exact Or.inr hn
 
 /-- **monotonicity in the optional flag** -/
 theorem sub_asOptional_right {s a : Shape} (h : isSubset s a = true) (hs : s.isOneOf = false) :
